@@ -8,6 +8,8 @@ import tlc
 KEYS = [1, 2, 3]
 
 
+PROBES = [("probe_persist", "asan", None, ["utest"])]
+
 MANIFEST = dict(
     text='TLC checks the syscall-grain file-store design (FileStore.tla) under a crash between any two system calls for all store sequences up to the bound, and shows that each named deviation breaks an invariant. Every store sequence TLC explores is executed on the real FilePersister with write/lseek interposed; every system-call boundary is materialised as a disk image, reopened with a fresh FilePersister and interrogated; TLC validates each recorded execution against the C27 monitor.',
     note='Crash model of the property statement (between completed system calls, no torn writes). Trusts TLC, the syscall seam, ASan/UBSan.',
